@@ -388,7 +388,7 @@ func KConsistent(p *core.Prog, r *core.Report) {
 		})
 	}
 	r.Count("member_validation_sites", nSites)
-	r.Floor("member_validation_sites", 7)
+	r.Floor("member_validation_sites", 5)
 	leafGroupPaths(p, r)
 
 	// missing required member: named <Path>.<k> with k the very element of Required that was looked up
@@ -538,7 +538,7 @@ func leafGroupPaths(p *core.Prog, r *core.Report) {
 		}
 	}
 	r.Count("leaf_group_constructions", n)
-	r.Floor("leaf_group_constructions", 16)
+	r.Floor("leaf_group_constructions", 12)
 }
 
 // SAME-DATUM-PATH — a sub-validator that judges the *same* datum as its parent (the value the enclosing method
